@@ -19,6 +19,9 @@ add("get", "h_get", ["hwloc__distances_get", "hwloc_distances_get_one", "hwloc_d
 for na in (0, 1, 2, 3):
     add("add_n%d" % na, "h_add", ["hwloc_distances_add_create", "hwloc_distances_add_values", "hwloc_distances_add_commit", "hwloc_backend_distances_add_create", "hwloc_backend_distances_add_values", "hwloc_backend_distances_add_commit", "hwloc_backend_distances_add__cancel"],
         {"quick": nb(3, NADD=na), "thorough": nb(3, NADD=na)})
+for na in (2, 3):
+    add("add_os_n%d" % na, "h_add", ["hwloc_distances_add_create", "hwloc_distances_add_values", "hwloc_distances_add_commit", "hwloc_backend_distances_add_values"],
+        {"quick": nb(3, NADD=na, POOL_OS=1), "thorough": nb(3, NADD=na, POOL_OS=1)})
 add("remove", "h_remove", ["hwloc_distances_remove_by_depth", "hwloc_distances_release_remove", "hwloc_distances_release", "hwloc_internal_distances_free"], {"quick": nb(2), "thorough": nb(3)})
 TRN = ["remove_null", "links", "merge_switch_ports", "transitive_closure", "invalid"]
 for t in range(5):
